@@ -1,14 +1,14 @@
 SPECIFICATION Spec
 CONSTANTS
-  Fam = "beam"
-  NW = 2
+  Fam = "plain"
+  NW = 3
   HeadLeft = TRUE
   G <- Gram
-  TagScores <- Scores013
-  DepScores <- Scores0
+  TagScores <- Scores0
+  DepScores <- Scores01
   KBestN = 1
   MaxStep = 1000
-  EstSign = 1
+  EstSign <- MinusOne
   Ties = "canonical"
 INVARIANT TypeOK
 INVARIANT Terminal
